@@ -4,6 +4,7 @@ import Holpy.C10.ProofsInt
 import Holpy.C10.ProofsPolySem
 import Holpy.C10.ProofsIntOrdBody
 import Holpy.C10.ProofsIntClosure
+import Holpy.C10.ProofsIntIdem
 /-
 C10 — property theorems about the integer Conv normaliser (`data/integer.py`: `simp_full`,
 `int_norm_conv`, `int_norm_eq`).
@@ -53,15 +54,13 @@ theorem evalE_embI (ρ : Nat → Int) (t : IExp) : evalE ρ (embI t) = evalI ρ 
 /-- The normal form has the identical `convert_to_poly` list as the term (polynomial semantics with
 x^n expanded), so two terms with the same normal form have the same polynomial.
 PARTIAL (`int_norm_canonical` is NOT proved): the converse -- same polynomial ⇒ same normal form.
-Done so far along the nat template: the order (`int_bodyCmp_total`), closure of the multiplicative
-monomial layer (`int_mult_monomial_closed`).  Still missing: closure of the additive layer
-(`insMI` / `addPI` / `subPI` -- because coefficients can cancel, a monomial can disappear, so the
-"last monomial" invariant needs the transitivity now available), of `polyMonoI` / `mulPI` / `simpFull`
-(`int_norm_nf_closed`), the fixed-point lemma (`int_norm_idem`), and injectivity normal form ->
-polynomial (`fsB` with exponents), then `int_norm_eq_canonical`.  `simp_full` does not expand powers
+Done along the nat template: the order (`int_bodyCmp_total`), closure (`int_norm_nf_closed`: the result
+is `0` or a strictly increasing sum of monomials with strictly increasing atomic bases) and
+idempotence (`int_norm_idem`).  Still missing: injectivity normal form -> polynomial (a strictly
+sorted monomial list is determined by its `convert_to_poly` list; `fsB` with exponents), which with
+closure gives `int_norm_canonical` and `int_norm_eq_canonical`.  `simp_full` does not expand powers
 of non-atomic bases ((i + j)^2 stays an atom), so canonicity can only hold on the fragment
-`atomicPowers`.  The real `simp_full` outputs are checked against the shape `isNFI` and canonicity
-is compared against the independent evaluator every run. -/
+`atomicPowers`.  Canonicity is compared against the independent evaluator every run. -/
 theorem int_norm_canonical_partial (a b : IExp) :
     toPoly (embI (intNorm a)) = toPoly (embI a) ∧
     (intNorm a = intNorm b → toPoly (embI a) = toPoly (embI b)) := by
@@ -105,5 +104,39 @@ theorem int_mult_monomial_closed :
 
 example : isMonoI (multMono (.mul (.num 2) (.mul (.pow (.atom 0 1) 1) (.pow (.atom 1 1) 2)))
     (.mul (.num (-3)) (.pow (.atom 0 1) 1))) = true := by decide
+
+/-- Closure: on every term whose powers have atomic bases (`atomicPowers`, decided by the driver on
+every generated input) `simp_full` returns a normal form -- `0`, or a left-nested sum of monomials
+strictly increasing under `compare_monomial` (numerals first), each a non-zero numeral or
+`c * body`, `c ≠ 0`, `body` a left-nested product of powers with strictly increasing atomic bases;
+the layers `norm_add_monomial` / `norm_add_polynomial` / `norm_mult_polynomials` keep that shape,
+also when coefficients cancel. -/
+theorem int_norm_nf_closed :
+    (∀ t, atomicPowers t = true → isNFI (simpFull t) = true) ∧
+    (∀ p c, isNFI p = true → isMonoI c = true → isNFI (insMI p c) = true) ∧
+    (∀ a b, isNFI a = true → isNFI b = true →
+      isNFI (addPI a b) = true ∧ isNFI (subPI a b) = true ∧ isNFI (mulPI a b) = true) :=
+  ⟨fun _ h => simpFull_nf h, fun _ _ hp hc => insMI_nf hp hc,
+   fun _ _ ha hb => ⟨addPI_nf ha hb, subPI_nf ha hb, mulPI_nf ha hb⟩⟩
+
+/- cancellation: (2*i*j + 3) + (-2)*i*j is the normal form 3; and a proper sum -/
+example : insMI (.add (.num 3) (.mul (.num 2) (.mul (.pow (.atom 0 1) 1) (.pow (.atom 1 1) 1))))
+    (.mul (.num (-2)) (.mul (.pow (.atom 0 1) 1) (.pow (.atom 1 1) 1))) = .num 3 := by decide
+example : atomicPowers (.mul (.add (.atom 0 1) (.atom 1 1)) (.sub (.atom 0 1) (.num 2))) = true ∧
+    isNFI (simpFull (.mul (.add (.atom 0 1) (.atom 1 1)) (.sub (.atom 0 1) (.num 2)))) = true ∧
+    simpFull (.mul (.add (.atom 0 1) (.atom 1 1)) (.sub (.atom 0 1) (.num 2))) ≠ .num 0 := by decide
+
+/-- Idempotence: `simp_full` rebuilds a normal form from its displayed presentation (`1 * x` shown as
+`x`, `x ^ 1` as `x`), so `int_norm_conv` applied to its own result changes nothing (terms whose powers
+have atomic bases). -/
+theorem int_norm_idem :
+    (∀ n, isNFI n = true → simpFull (stripPow1 (strip1 n)) = n) ∧
+    (∀ t, atomicPowers t = true → intNorm (intNorm t) = intNorm t) :=
+  ⟨fun _ h => strip_nf h, fun _ h => intNorm_idem h⟩
+
+example : intNorm (.mul (.add (.atom 0 1) (.atom 1 1)) (.atom 0 1))
+      = .add (.pow (.atom 0 1) 2) (.mul (.atom 0 1) (.atom 1 1)) ∧
+    intNorm (.add (.pow (.atom 0 1) 2) (.mul (.atom 0 1) (.atom 1 1)))
+      = .add (.pow (.atom 0 1) 2) (.mul (.atom 0 1) (.atom 1 1)) := by decide
 
 end Holpy.C10
